@@ -10,7 +10,10 @@ random; JSON-serialisable, the replay artefact):
      "elsc": "list" | "missing" | "noniter" | "emptyiter" | "baditer",
      "items": [{"name": pool name | "missing" | "bad" | "nondict",
                 "fld":  "ok" | "extra" | "long" | "short" | "odd"            (loadable)
-                      | "by_missing" | "pay_missing" | "pay_invalid" | "tweak_invalid"
+                            | "spell_same"  one hex field written in another ACCEPTED spelling of its bytes
+                | "spell_refused" (one hex field in a spelling the loader refuses: see certv1.SPELL_*;
+                                   optional "spell": [field, member] pins the choice)
+                | "by_missing" | "pay_missing" | "pay_invalid" | "tweak_invalid"
                       | "type_missing" | "type_unknown",                      (defects)
                 "by":   pool name | "root" | "ghost",
                 "ok":   bool   (should the link verify)}, ...]}
@@ -33,7 +36,18 @@ from . import certv1
 
 POOL = ["a", "b", "c", "d", "e", "f", "g", "h"]
 V2_NAMES = ["quote", "attkey", "qe_cert", "pck_ca", "platform", "proc_ca", "tcb", "extra_ca"]
-LOADABLE = ("ok", "extra", "long", "short", "odd")
+LOADABLE = ("ok", "extra", "long", "short", "odd", "spell_same")
+V1_HEX = ("message", "signature", "tweak")
+V2_HEX = {"sgx_quote": ("message", "custom_data", "signature"),
+          "sgx_attestation_key": ("message", "key", "auth_data", "signature")}
+
+
+def _pick_spelling(it, fields, rng):
+    """(field, member) of the single re-spelt hex field of an item of class spell_same / spell_refused."""
+    if it.get("spell"):
+        return tuple(it["spell"])
+    members = certv1.SPELL_ACCEPTED[1:] if it["fld"] == "spell_same" else certv1.SPELL_REFUSED
+    return rng.choice(list(fields)), rng.choice(list(members))
 
 
 # ------------------------------------------------------------------------------------------------
@@ -93,8 +107,13 @@ def _odd_hex(h, rng):
     return h[:len(h) // 2 * 1].upper() + h[len(h) // 2 * 1:]
 
 
-def ghost_value(rng, other_root):
-    return rng.choice(["ghost", "", other_root, 5, None, ["x"], {"n": 1}, 1.5, "Root", "ROOT"])
+N_GHOSTS = 10
+
+
+def ghost_value(rng, other_root, pick=None):
+    """A `signed_by` / target that names no element: a seeded member, or member `pick`."""
+    vals = ["ghost", "", other_root, 5, None, ["x"], {"n": 1}, 1.5, "Root", "ROOT"]
+    return rng.choice(vals) if pick is None else vals[pick % len(vals)]
 
 
 # ------------------------------------------------------------------------------------------------
@@ -111,9 +130,9 @@ def render_v1(doc):
     for j, it in enumerate(items):
         nm = rng.choice(names) if it["name"] == "root" else pmap.get(it["name"], rng.choice(names))
         by = it["by"]
-        rby = "root" if by == "root" else pmap[by] if by in pmap else ghost_value(rng, "sgx_root")
+        rby = "root" if by == "root" else pmap[by] if by in pmap else ghost_value(rng, "sgx_root", it.get("ghostv"))
         e = {"name": nm, "signed_by": rby, "compressed": rng.random() < 0.4}
-        if rng.random() < 0.5:
+        if rng.random() < 0.5 or (it.get("spell") and it["spell"][0] == "tweak"):
             e["tweak"] = "random"
         fld = it["fld"]
         sub = ""
@@ -151,7 +170,11 @@ def render_v1(doc):
             k = rng.choice(["message", "signature"] + (["tweak"] if "tweak" in e else []))
             pairs = [(a, (_odd_hex(b, rng) if a == k else b)) for a, b in pairs]
             meta[j] = "hex of %s in upper case / with spaces" % k
-        o = _obj(pairs, rng)
+        if fld in ("spell_same", "spell_refused"):
+            k, member = _pick_spelling(it, [f for f in V1_HEX if f in e], rng)
+            pairs = [(a, (certv1.respell(b, member, rng) if a == k else b)) for a, b in pairs]
+            meta[j] = "spelling %s of %s" % (member, k)
+        o = _obj(pairs, rng, dup_rate=0.0 if fld.startswith("spell") else 0.12)
         if fld == "by_missing":
             o = _drop(o, "signed_by")
         elif fld == "pay_missing":
@@ -267,6 +290,14 @@ def _flip(b, rng, lo=0, hi=None):
     return bytes(b)
 
 
+def V2_HEX_TYPE(it, rng):
+    if it.get("spell"):
+        f = it["spell"][0]
+        return "sgx_quote" if f == "custom_data" else "sgx_attestation_key" if f in ("key", "auth_data") \
+            else rng.choice(["sgx_quote", "sgx_attestation_key"])
+    return rng.choice(["sgx_quote", "sgx_attestation_key"])
+
+
 def render_v2(doc):
     rng = random.Random(doc["seed"])
     names = list(V2_NAMES)
@@ -287,6 +318,9 @@ def render_v2(doc):
     for j, it in enumerate(items):
         if it.get("type"):
             types.append(it["type"])
+        elif it["fld"] in ("spell_same", "spell_refused"):
+            # only these element types have hex-valued fields
+            types.append(V2_HEX_TYPE(it, rng))
         elif it["name"] in certifies:
             types.append(rng.choice(["x509_pem"] * 4 + ["sgx_attestation_key"]))
         else:
@@ -294,7 +328,7 @@ def render_v2(doc):
     els, meta = [], []
     for j, it in enumerate(items):
         by = it["by"]
-        rby = "sgx_root" if by == "root" else pmap[by] if by in pmap else ghost_value(rng, "root")
+        rby = "sgx_root" if by == "root" else pmap[by] if by in pmap else ghost_value(rng, "root", it.get("ghostv"))
         # `signed_by: sgx_root` is signed by the root of trust, also when an element has that name
         pkey = root_key if by == "root" else keys[last[by]] if by in last else stranger
         nm = pmap.get(it["name"], rng.choice(names))
@@ -302,6 +336,11 @@ def render_v2(doc):
         bad = "" if ok else rng.choice(["sig", "key", "bind"])
         skey = stranger if bad == "key" else pkey
         sub = ""
+        spelt = None
+        if fld in ("spell_same", "spell_refused") and typ in V2_HEX:
+            spelt = _pick_spelling(it, V2_HEX[typ], rng)
+            if spelt == ("auth_data", "empty"):
+                spelt = ("auth_data", "ws_only")      # (an empty auth_data is a legitimate value)
         if typ == "x509_pem":
             der = _x509(keys[j], skey, nm, rby, rng, expired=(bad == "bind"))
             if bad == "sig":
@@ -320,7 +359,7 @@ def render_v2(doc):
             pairs = [("name", nm), ("type", typ), ("message", msg), ("signed_by", rby)]
             payload = ["message"]
         elif typ == "sgx_attestation_key":
-            auth = bytes(rng.randrange(256) for _ in range(rng.choice([32, 32, 1, 100, 0])))
+            auth = bytes(rng.randrange(256) for _ in range(rng.choice([32, 32, 1, 100, 0] if not spelt else [32, 1])))
             raw = _raw64(keys[j])
             rd = hashlib.sha256(raw + auth).digest()
             body = _report_body(rng, rd)
@@ -355,6 +394,8 @@ def render_v2(doc):
             payload = ["message", "key", "auth_data", "signature"]
         else:
             custom = bytes(rng.randrange(256) for _ in range(rng.choice([32, 40, 1, 200])))
+            if spelt and spelt[0] == "custom_data" and spelt[1] in ("ws_only", "empty"):
+                custom = b""        # the quote genuinely attests EMPTY custom data; the field is blank(s)
             rd = hashlib.sha256(custom).digest()
             hdr = bytes(rng.randrange(256) for _ in range(QUOTE_HEADER_LEN))
             body = _report_body(rng, rd)
@@ -383,10 +424,13 @@ def render_v2(doc):
             pairs = [("name", nm), ("type", typ), ("message", mh), ("custom_data", ch_),
                      ("signature", sh), ("signed_by", rby)]
             payload = ["message", "custom_data", "signature"]
+        if spelt:
+            pairs = [(a, (certv1.respell(b, spelt[1], rng) if a == spelt[0] else b)) for a, b in pairs]
+            sub = "%s: spelling %s of %s" % (typ, spelt[1], spelt[0])
         if fld == "extra":
             pairs += rng.sample([("comment", "x"), ("tweak", "zz"), ("version", 2), ("targets", []),
                                  ("key", None) if typ != "sgx_attestation_key" else ("custom_data", None)], 2)
-        o = _obj(pairs, rng)
+        o = _obj(pairs, rng, dup_rate=0.0 if spelt else 0.12)
         if fld == "by_missing":
             o = _drop(o, "signed_by")
         elif fld == "pay_missing":
@@ -411,7 +455,10 @@ def render_v2(doc):
             o = rng.choice(["quote", 5, None, ["name"], [["type", "x509_pem"]], True, "type", 1.5])
         els.append(o)
         meta.append(typ + (": " + sub if sub else ""))
-    target_names = [pmap[t] if t in pmap else ghost_value(rng, "sgx_root") for t in doc["targets"]]
+    # (a target spelt like the root of trust is a ghost only while no element carries that name)
+    rootnamed = any(it["name"] == "root" for it in items)
+    target_names = [pmap[t] if t in pmap else ghost_value(rng, "root" if rootnamed else "sgx_root")
+                    for t in doc["targets"]]
     text = _top(doc, rng, 2, 1, target_names, els)
     root_der = _x509(root_key, root_key, "sgx_root", "sgx_root", rng)
     return {"text": text, "root": base64.b64encode(root_der).decode(), "pmap": pmap, "sub": meta,
@@ -425,7 +472,7 @@ def render(doc):
 # ------------------------------------------------------------------------------------------------
 # abstract documents
 # ------------------------------------------------------------------------------------------------
-DEFECTS_COMMON = ["by_missing", "pay_missing", "pay_invalid"]
+DEFECTS_COMMON = ["by_missing", "pay_missing", "pay_invalid", "spell_refused"]
 
 
 def docs_from_behaviour(b, rng):
@@ -494,6 +541,35 @@ def directed_docs(rng):
                                      "elsc": "list", "targets": tgts, "items": items, "src": "directed"})
                 if fl == "v1":
                     break
+    # a bystander element (on no target's path) whose `signed_by` names nothing, in every JSON form: the
+    # document loads, and must still load after it was saved
+    for fl in ("v1", "v2"):
+        for k in range(N_GHOSTS):
+            items = [{"name": n2, "type": t2, "by": ("root" if n2 == "c" else b2), "fld": "ok", "ok": True}
+                     for n2, t2, b2 in v2[:3]]
+            items.insert(rng.randrange(4), {"name": "d", "type": rng.choice(["x509_pem", "sgx_quote"]), "by": "ghost",
+                                            "ghostv": k, "fld": "ok", "ok": True})
+            docs.append({"flavour": fl, "seed": rng.randrange(1 << 62), "ver": "ok", "tgtc": "list",
+                         "elsc": "list", "targets": ["a", "b"], "items": items, "src": "directed"})
+    # spelling: every member on every hex field of every element type, one deviation per document
+    for m in certv1.SPELLINGS:
+        cls = "spell_same" if m in certv1.SPELL_ACCEPTED else "spell_refused"
+        for j, (n, t, by) in enumerate(v2[:2]):
+            for f in V2_HEX[t]:
+                if (f, m) == ("auth_data", "empty"):
+                    continue
+                items = [{"name": n2, "type": t2, "by": b2, "fld": (cls if i == j else "ok"), "ok": True}
+                         for i, (n2, t2, b2) in enumerate(v2)]
+                items[j]["spell"] = [f, m]
+                docs.append({"flavour": "v2", "seed": rng.randrange(1 << 62), "ver": "ok", "tgtc": "list",
+                             "elsc": "list", "targets": ["a"], "items": items, "src": "directed"})
+        for j in (0, 1):
+            for f in V1_HEX:
+                items = [{"name": n2, "by": b2, "fld": (cls if i == j else "ok"), "ok": True}
+                         for i, (n2, b2) in enumerate([("a", "b"), ("b", "c"), ("c", "d"), ("d", "root")])]
+                items[j]["spell"] = [f, m]
+                docs.append({"flavour": "v1", "seed": rng.randrange(1 << 62), "ver": "ok", "tgtc": "list",
+                             "elsc": "list", "targets": ["a", "c"], "items": items, "src": "directed"})
     v1 = [("a", "b"), ("b", "c"), ("c", "d"), ("d", "root")]
     for j in range(4):
         for fld in ("ok", "long", "short", "odd", "extra"):
@@ -513,7 +589,7 @@ def _random_item(rng, pool, p_defect, flavour):
             fld = "ok"
     else:
         name = rng.choice(pool)
-        fld = rng.choice(["ok"] * 8 + ["extra", "long", "short", "odd"])
+        fld = rng.choice(["ok"] * 8 + ["extra", "long", "short", "odd", "spell_same", "spell_same"])
     return {"name": name, "fld": fld, "by": rng.choice(pool + ["root", "root", "ghost"]),
             "ok": rng.random() < 0.7}
 
